@@ -223,6 +223,22 @@ func init() {
 		"(*sync.RWMutex).Unlock":  nop,
 		"(*sync.RWMutex).RLock":   nop,
 		"(*sync.RWMutex).RUnlock": nop,
+		// sync.Pool is a cache: Get always makes a new object, Put drops it
+		"(*sync.Pool).Put": nop,
+		"(*sync.Pool).Get": func(fr *frame, a []value) value {
+			pool := (*a[0].(*value)).(structure)
+			newFn := pool[len(pool)-1] // the New field is the last one
+			if newFn == nil {
+				return iface{}
+			}
+			if c, ok := newFn.(*closure); ok && c == nil {
+				return iface{}
+			}
+			if f, ok := newFn.(*ssa.Function); ok && f == nil {
+				return iface{}
+			}
+			return call(fr.i, fr.caller, token.NoPos, newFn, nil)
+		},
 		"(*sync.Once).Do": func(fr *frame, a []value) value {
 			i := fr.i
 			if i.onceDone == nil {
